@@ -14,6 +14,17 @@ def run(ded, repo, tier):
         for v in variants:
             eng = m.make_engine(repo)
             driver.discharge(ded, eng, q, clause_of=CL, tier=tier, variant=v, timeout=30 if tier == 'quick' else 120)
+    # API closure (finite obligation on the real class text): every dict mutator is overridden, so no inherited C-level
+    # mutator can change the dict part behind the ring's back
+    from pyvc import front
+    from lib.core import Obligation
+    from contracts import lri_lock
+    src = front.load(repo, m.FILE)
+    for meth, ok in lri_lock.closure(src):
+        ded.add(Obligation('LRI: dict mutator %s is overridden' % meth, 'LRI', 'api_closure', 'closure',
+                           'proved' if ok else 'refuted', backend='ast', detail='' if ok else
+                           'dict.%s is inherited unchanged: it mutates the dict part without the linked list / capacity check' % meth,
+                           model=dict(method=meth)))
     ded.assume('keys/values are opaque with total, deterministic, side-effect-free ==/hash; the private sentinel _MISSING is never used as a key')
     ded.assume('on_miss is None or a truthy callable that is deterministic in its argument and does not touch the cache (re-entrant on_miss is covered only by the bounded check)')
     ded.assume('single-threaded execution in C02 (C03 treats schedules)')
